@@ -34,7 +34,7 @@ LEVEL_NOTE = ('Trusted: h11 as response splitter, the strict request splitter in
 TECHNIQUE = 'offline history checking of id-tagged request/response transcripts at client and origin sockets (h11 as splitter)'
 RULE = ('case = (role, request list with targets/bodies, packing, cut seed, origin answer timing); non-trivial = >= 2 '
         'requests on the connection; distinct = role/packing/targets/body kinds + schedule hash')
-ASSUMPTIONS = ['requests carry unique ids and no Connection: close', 'origins answer in request order on each connection']
+ASSUMPTIONS = ['requests carry unique ids; only the last request of a history may ask for the connection to be closed (Connection: close / HTTP/1.0)', 'origins answer in request order on each connection']
 SHARDS = {'quick': 8, 'thorough': 16}
 BUDGET_S = {'quick': 45, 'thorough': 800}
 
@@ -95,7 +95,10 @@ def build_request(role: str, spec: Dict[str, Any], hostports: Dict[str, bytes]) 
         target = (b'/ra/' if tgt == 'A' else b'/rb/') + rid
         host = b'rev.test'
     body = spec.get('body')
-    head = b'%s %s HTTP/1.1\r\nHost: %s\r\nX-Req-Id: %s\r\n' % (spec['method'].encode(), target, host, rid)
+    version = b'HTTP/1.0' if spec.get('last') == 'http10' else b'HTTP/1.1'
+    head = b'%s %s %s\r\nHost: %s\r\nX-Req-Id: %s\r\n' % (spec['method'].encode(), target, version, host, rid)
+    if spec.get('last') == 'close':
+        head += b'Connection: close\r\n'
     if body is None:
         return head + b'\r\n'
     b = body.encode()
@@ -271,8 +274,11 @@ def run_case(case: Dict[str, Any]) -> Dict[str, Any]:
                 if len(seen) != len(set(seen)):
                     viol.append({'key': feat + '|request-forwarded-twice', 'detail': dict(detail_base, origin=nm, seen=seen)})
                 obs['origin_requests'] = obs.get('origin_requests', 0) + len(seen)
-        # still usable: nobody closed, so one more request must be served
-        if not viol:
+        # still usable: nobody closed, so one more request must be served (unless the client itself asked for
+        # the connection to end with its last request: then only the responses are owed)
+        if specs[-1].get('last'):
+            obs['last_request_asks_close'] = 1
+        elif not viol:
             if client.ended:
                 viol.append({'key': feat + '|connection-closed-by-proxy', 'detail': detail_base})
             else:
@@ -334,6 +340,8 @@ def cases(tier: str, seed: int):
                         left -= s
                     spec['sizes'] = sizes
             reqs.append(spec)
+        if rng.random() < 0.25:
+            reqs[-1]['last'] = rng.choice(['close', 'close', 'http10'])
         yield {'seed': seed, 'i': i, 'role': role, 'packing': packing, 'requests': reqs,
                'ncuts': rng.choice([0, 0, 1, 3, 8]), 'answer_p': rng.choice([1.0, 0.7, 0.3]),
                'transport': rng.choice(['unix', 'tcp']), 'mode': rng.choice(['local', 'local', 'remote'])}
@@ -341,7 +349,7 @@ def cases(tier: str, seed: int):
 
 def floors(tier: str) -> Dict[str, int]:
     return {'histories>=3': 200, 'packing:packed': 150, 'role:forward': 50, 'role:web': 50, 'role:reverse': 50,
-            'responses_matched': 300, 'multi_target': 30, 'with_body': 100, 'distinct:schedules': 200}
+            'responses_matched': 300, 'multi_target': 30, 'last_request_asks_close': 100, 'with_body': 100, 'distinct:schedules': 200}
 
 
 if __name__ == '__main__':
